@@ -13,7 +13,28 @@ for line in src.split('\n'):
     keep.append(line)
 s = z3.Solver()
 s.from_string('\n'.join(keep))
-r = s.check()
+# prefer a model with short input iterators (a replay test materialises their elements)
+import re as _re
+small = [z3.Int(nm) <= 6 for nm in sorted(set(_re.findall(r'\(declare-fun (it\d+\.n) \(\) Int\)', src)))]
+# ... and with short slices: parameters of sort Slice = (mk_Slice arr off len cap)
+_slice_consts = sorted(set(_re.findall(r'\(declare-fun ([^ ()]+) \(\) Slice\)', src)))
+if _slice_consts:
+    _probe = z3.Solver()
+    _probe.from_string('\n'.join(l for l in keep if l.startswith('(declare-datatypes ((Slice 0))')) + '\n(declare-fun probe__ () Slice)\n(assert (= probe__ probe__))')
+    _SliceSort = _probe.assertions()[0].arg(0).sort()
+    for nm in _slice_consts:
+        cst = z3.Const(nm, _SliceSort)
+        small.append(_SliceSort.accessor(0, 3)(cst) <= 6)
+        small.append(_SliceSort.accessor(0, 1)(cst) <= 2)
+r = z3.unknown
+if small:
+    s.push()
+    s.add(*small)
+    r = s.check()
+    if r != z3.sat:
+        s.pop()
+if r != z3.sat:
+    r = s.check()
 if r != z3.sat:
     print(json.dumps({"status": str(r)}))
     sys.exit(0)
@@ -32,8 +53,99 @@ for d in m.decls():
             for i in range(fi.num_entries()):
                 e = fi.entry(i)
                 entries.append([[e.arg_value(j).sexpr() for j in range(e.num_args())], e.value().sexpr()])
-            out["funcs"][name] = {"entries": entries, "else": fi.else_value().sexpr() if fi.else_value() is not None else None,
+            els = fi.else_value().sexpr() if fi.else_value() is not None else None
+            if els is not None and (':var' in els or 'ite' in els):
+                # a computed default: tabulate the function over the finite universes of its argument sorts instead
+                doms = []
+                for j in range(d.arity()):
+                    sj = d.domain(j)
+                    if sj.kind() == z3.Z3_BOOL_SORT:
+                        doms.append([z3.BoolVal(False), z3.BoolVal(True)])
+                    elif sj.kind() == z3.Z3_UNINTERPRETED_SORT and m.get_universe(sj) is not None:
+                        doms.append(list(m.get_universe(sj)))
+                    else:
+                        doms = None
+                        break
+                size = 1
+                for dm in (doms or []):
+                    size *= len(dm)
+                if doms is not None and 0 < size <= 4096:
+                    import itertools
+                    entries = []
+                    for tup in itertools.product(*doms):
+                        entries.append([[a.sexpr() for a in tup], m.eval(d(*tup), model_completion=True).sexpr()])
+                    els = entries[0][1]
+            out["funcs"][name] = {"entries": entries, "else": els,
                                   "domain": [str(d.domain(j)) for j in range(d.arity())], "range": str(d.range())}
         except Exception as ex:  # a lambda / array-valued interpretation: keep its text only
             out["funcs"][name] = {"text": str(fi)}
+# input iterator sources (govc/iter.go): it<k>.n elements it<k>.elems[0..n) — evaluate the array pointwise,
+# so that the replay generator does not depend on how the solver prints array values
+import re
+byname = {d.name(): d for d in m.decls() if d.arity() == 0}
+for name, d in list(byname.items()):
+    mo = re.fullmatch(r'it(\d+)\.elems', name)
+    if not mo or ('it%s.n' % mo.group(1)) not in byname:
+        continue
+    try:
+        n = m[byname['it%s.n' % mo.group(1)]].as_long()
+    except Exception:
+        continue
+    for i in range(max(0, min(n, 64))):
+        out["consts"]["%s@%d" % (name, i)] = m.eval(z3.Select(d(), z3.IntVal(i)), model_completion=True).sexpr()
+# slices and pointers among the constants: evaluate the entry heaps pointwise at the places they refer to
+# (A0_<elem>[arr][j] for j < off+cap, H0_<elem>[addr]), for the same reason
+for name, d in list(byname.items()):
+    if name.startswith('path!') or name.startswith('t!'):
+        continue
+    v = m[d]
+    try:
+        if str(d.range()) == 'Slice' and z3.is_app(v) and v.num_args() == 4:
+            arr, off, ln, cp = [v.arg(i).as_long() for i in range(4)]
+            if arr > 0 and 0 <= off and 0 <= cp <= 64 and off <= 64:
+                for hn, hd in byname.items():
+                    if hn.startswith('A0_'):
+                        for j in range(off + cp):
+                            out["consts"]["%s@%d@%d" % (hn, arr, j)] = m.eval(z3.Select(z3.Select(hd(), z3.IntVal(arr)), z3.IntVal(j)), model_completion=True).sexpr()
+        elif str(d.range()) == 'Int' and name.startswith('p_'):
+            a = v.as_long()
+            if a > 0:
+                for hn, hd in byname.items():
+                    if hn.startswith('H0_'):
+                        out["consts"]["%s@%d" % (hn, a)] = m.eval(z3.Select(hd(), z3.IntVal(a)), model_completion=True).sexpr()
+    except Exception:
+        pass
+# Go maps among the parameters: a map is an address into H0_MapVal_<K>__<V>; list the present keys over the finite
+# universe of the key sort
+out["maps"] = {}
+for name, d in list(byname.items()):
+    if not name.startswith('p_') or str(d.range()) != 'Int':
+        continue
+    try:
+        a = m[d].as_long()
+    except Exception:
+        continue
+    if a <= 0:
+        continue
+    for hn, hd in byname.items():
+        if not hn.startswith('H0_MapVal_'):
+            continue
+        try:
+            mv = z3.Select(hd(), z3.IntVal(a))
+            dt = mv.sort()
+            has, val, ln = dt.accessor(0, 0)(mv), dt.accessor(0, 1)(mv), dt.accessor(0, 2)(mv)
+            ks = has.sort().domain()
+            if ks.kind() == z3.Z3_BOOL_SORT:
+                univ = [z3.BoolVal(False), z3.BoolVal(True)]
+            elif ks.kind() == z3.Z3_UNINTERPRETED_SORT:
+                univ = list(m.get_universe(ks) or [])
+            else:
+                continue
+            entries = []
+            for k in univ:
+                if z3.is_true(m.eval(z3.Select(has, k), model_completion=True)):
+                    entries.append([k.sexpr(), m.eval(z3.Select(val, k), model_completion=True).sexpr()])
+            out["maps"]["%s@%d" % (hn, a)] = {"len": m.eval(ln, model_completion=True).as_long(), "entries": entries}
+        except Exception:
+            pass
 print(json.dumps(out))
